@@ -197,25 +197,26 @@ def map_shapes(ui: int, pi: int, strip: bool, si: int, hq: bool) -> bool:
 
 
 NROUTE = pick(9, len(SHAPES))
+NROUTE3 = pick(5, len(SHAPES))
 LOCS = ["/", "/api", "/api/", "/apikey/", "/static/"]
 
 
-def route(l1: int, l2: int, l3: int, n: int, si: int) -> bool:
-    """
-    pre: 2 <= n <= 3 and 0 <= l1 < 5 and 0 <= l2 < 5 and 0 <= l3 < 5
-    pre: 0 <= si < NROUTE
-    pre: n == 3 or l3 == 0
-    post: _
-    """
+def _route(l1, l2, l3, n, si, same_up, strip):
+    # (contract on the partitioned wrappers)
     import pathlib
     picks = [l1, l2, l3][:n]
-    locs = [LocationConfig(prefix=LOCS[p], handler_type=HandlerType.PROXY, upstream="gemini://u%d.example" % i, strip_prefix=False)
+    ups = ["gemini://shared.example" if same_up else "gemini://u%d.example" % i for i in range(n)]
+    locs = [LocationConfig(prefix=LOCS[p], handler_type=HandlerType.PROXY, upstream=ups[i], strip_prefix=strip)
             for i, p in enumerate(picks)]
     cfg = ServerConfig(document_root=pathlib.Path("/usr"), locations=locs)
     router = cfg.get_location_router()
     hit = []
+    seen_handlers = []
     for r_i, r in enumerate(router.routes):
         ph = internal(r.handler, "__self__")
+        if any(ph is x for x in seen_handlers):
+            continue                       # (an implementation may share handler objects between locations)
+        seen_handlers.append(ph)
 
         async def fake_get(url, follow_redirects=True, _i=r_i):
             hit.append((_i, url))
@@ -236,7 +237,29 @@ def route(l1: int, l2: int, l3: int, n: int, si: int) -> bool:
             break
     if want is None:
         return V(not hit and res.status == 51)
-    return V(len(hit) == 1 and hit[0][0] == want and parse_url(hit[0][1]).hostname == "u%d.example" % want)
+    if len(hit) != 1:
+        return V(False)
+    # the location that matched first decides upstream and mapping
+    cpath, cquery = _split_client_url("gemini://front" + SHAPES[si])
+    want_url = ups[want] + _ref_path(cpath, LOCS[picks[want]], strip)
+    return V(hit[0][1] == want_url)
+
+
+def route2(l1: int, l2: int, si: int, shared: bool) -> bool:
+    """
+    pre: 0 <= l1 < 5 and 0 <= l2 < 5 and 0 <= si < NROUTE
+    post: _
+    """
+    return _route(l1, l2, 0, 2, si, shared, shared)
+
+
+def route3(l1: int, l2: int, l3: int, si: int, shared: bool) -> bool:
+    """
+    pre: 0 <= l1 < 5 and 0 <= l2 < 5 and 0 <= l3 < 5 and l1 != l2 and l2 != l3 and l1 != l3
+    pre: 0 <= si < NROUTE3
+    post: _
+    """
+    return _route(l1, l2, l3, 3, si, shared, shared)
 
 
 META = {
@@ -280,7 +303,10 @@ OBLIGATIONS = [
     Ob("map_shapes", map_shapes, quick=400, thorough=1200,
        symbolic="17 concrete path shapes (partial prefix match, dot segments, ;params, doubled slashes, empty path, '@' look-alikes) "
                 "x upstream x prefix x strip x query", functions=FN, stubs=["client.get recorder"], note="discrete"),
-    Ob("route", route, quick=400, thorough=1200,
-       symbolic="2..3 locations with prefixes from 5 forms (overlapping), 17 path shapes", functions=FN,
+    Ob("route2", route2, quick=400, thorough=1200,
+       symbolic="2 proxy locations with prefixes from 5 forms (overlapping), either distinct upstreams without stripping or one shared upstream with stripping, 9 quick / 17 thorough path shapes", functions=FN,
+       stubs=["client.get recorder"], note="discrete"),
+    Ob("route3", route3, quick=400, thorough=1200,
+       symbolic="3 proxy locations with distinct prefixes with prefixes from 5 forms (overlapping), either distinct upstreams without stripping or one shared upstream with stripping, 5 quick / 17 thorough path shapes", functions=FN,
        stubs=["client.get recorder"], note="discrete"),
 ]
